@@ -271,6 +271,12 @@ clientReplyContext::processExpired()
         return;
     }
 
+    /// Deny loops: revalidating would forward a request that already went through us
+    if (http->request->flags.loopDetected) {
+        processMiss(); // generates the same ERR_ACCESS_DENIED reply as for a looping miss
+        return;
+    }
+
     http->updateLoggingTags(LOG_TCP_REFRESH);
     http->request->flags.refresh = true;
 #if STORE_CLIENT_LIST_DEBUG
